@@ -373,8 +373,14 @@ fn has_operator_chars(text: &str) -> bool {
 /// token list after all expansions, so a result that brings in `|`, `&`,
 /// `<` or `>` which the word as written did not contain gets the
 /// double-quote tag (like results containing spaces do).
-fn sep_after_expansion(sep: &str, before: &str, after: &str) -> String {
-    if sep.is_empty() && has_operator_chars(after) && !has_operator_chars(before) {
+fn sep_after_expansion(tokens: &types::Tokens, idx: usize, before: &str, after: &str) -> String {
+    let sep = &tokens[idx].0;
+    // (a leading `NAME=value` word must keep its empty tag to be taken as
+    // an assignment; its value is never looked at for operators)
+    let leading_assignment = tokens[..=idx].iter().all(|x| x.0.is_empty() && tools::is_env(&x.1));
+    if sep.is_empty() && has_operator_chars(after) && !has_operator_chars(before)
+        && !leading_assignment
+    {
         "\"".to_string()
     } else {
         sep.to_string()
@@ -818,7 +824,7 @@ pub fn expand_env(sh: &Shell, tokens: &mut types::Tokens) {
     }
 
     for (i, text) in buff.iter().rev() {
-        tokens[*i].0 = sep_after_expansion(&tokens[*i].0, &tokens[*i].1, text);
+        tokens[*i].0 = sep_after_expansion(tokens, *i, &tokens[*i].1, text);
         tokens[*i].1 = text.to_string();
     }
 }
@@ -997,7 +1003,7 @@ fn do_command_substitution(sh: &mut Shell, tokens: &mut types::Tokens) {
             continue;
         }
         let text = substitute_commands(sh, &token, with_dollar, with_dot);
-        tokens[idx].0 = sep_after_expansion(&sep, &strip_substitutions(&token), &text);
+        tokens[idx].0 = sep_after_expansion(tokens, idx, &strip_substitutions(&token), &text);
         tokens[idx].1 = text;
     }
 }
